@@ -39,6 +39,32 @@ impl Input {
     }
 }
 
+/// Byte encoding of an [`Input`] shared with the libFuzzer target: little-endian `u32` words; the
+/// first word splits the remaining ones between tape `a` and tape `b`.
+pub fn input_from_bytes(data: &[u8]) -> Input {
+    let words: Vec<u32> = data
+        .chunks(4)
+        .map(|c| {
+            let mut b = [0u8; 4];
+            b[..c.len()].copy_from_slice(c);
+            u32::from_le_bytes(b)
+        })
+        .collect();
+    let Some((first, rest)) = words.split_first() else { return Input { a: vec![], b: vec![] } };
+    let cut = ((u64::from(*first) * (rest.len() as u64 + 1)) >> 32) as usize;
+    Input { a: rest[..cut].to_vec(), b: rest[cut..].to_vec() }
+}
+
+pub fn input_to_bytes(i: &Input) -> Vec<u8> {
+    let n = (i.a.len() + i.b.len()) as u64;
+    let first = (((i.a.len() as u64) << 32).div_ceil(n + 1)).min(u64::from(u32::MAX)) as u32;
+    let mut out = first.to_le_bytes().to_vec();
+    for w in i.a.iter().chain(&i.b) {
+        out.extend_from_slice(&w.to_le_bytes());
+    }
+    out
+}
+
 #[derive(Clone, Debug)]
 pub struct Violation {
     /// Stable signature produced by the oracle: `<clause>/<sub-clause>`.
@@ -715,6 +741,13 @@ pub fn parent(prop: &dyn Property, tier: Tier, seed: u64) -> i32 {
     });
     if let Some((d, _)) = exh.first() {
         coverage["exhaustive_subspace"] = json!(d);
+    }
+    // libFuzzer campaign run by `./check <ID> thorough` before this process (see /verif/check)
+    if let Ok(p) = std::env::var("VLAB_FUZZ_STATS") {
+        if let Some(v) = std::fs::read_to_string(&p).ok().and_then(|s| serde_json::from_str::<Value>(&s).ok()) {
+            coverage["fuzz_execs"] = v["execs"].clone();
+            coverage["fuzz_campaign"] = v;
+        }
     }
     let ev = json!({
         "property_id": id,
